@@ -56,8 +56,10 @@ func initLayouts() {
 // spliced in, so that drop mode has something to omit.
 func tmplFields(mode string, li int) []refipfix.Field {
 	f := gen.Fields(layouts[li])
-	if mode != mirror.Strict && li%2 == 1 {
-		u := refipfix.Field{ID: 900 + uint16(li), Ent: 4444, Len: 3}
+	if mode != mirror.Strict {
+		// the SAME unknown element in every layout, announced with a different length each time:
+		// a collector that remembers an unknown element by id only would slice the data wrongly
+		u := refipfix.Field{ID: 900, Ent: 4444, Len: uint16(2 + li)}
 		f = append(f[:1:1], append([]refipfix.Field{u}, f[1:]...)...)
 	}
 	return f
